@@ -91,7 +91,7 @@ def run(ctx):
     for f in data['fails']:
         ctx.report(f['key'], 'Node.position: ' + f['msg'],
                    dict({'key': f['key'], 'msg': f['msg'], 'spec': f['spec'], 'shape': f['shape'], 'terms': f['terms']},
-                        **{k: f[k] for k in ('edit', 'history') if k in f}))
+                        **{k: f[k] for k in ('edit', 'history', 'kind') if k in f}))
     ctx.oblige('property oracle: every sub-tree of %d trees x terminal sets (%d function-node evaluations) equals the documented operator '
                'on its children\'s values, has the declared shape, and the tree is unmodified' % (data['cases'], data['nodes']),
                not data['fails'], '; '.join(f['msg'] for f in data['fails'][:3]))
